@@ -121,6 +121,10 @@ func (r *buffer) readLimited(n int, src *countReader) error {
 	r.off = 0
 	var err error
 	r.size, err = io.ReadFull(src, r.data[:n])
+	if err == io.EOF && n > 0 {
+		// The member header announced more data.
+		err = io.ErrUnexpectedEOF
+	}
 	return err
 }
 
